@@ -12,7 +12,7 @@ import math
 import numpy as np
 
 from . import common
-from .filt_util import tok, bits, is_open, ChoiceRecorder
+from .filt_util import tok, bits, ChoiceRecorder
 
 ID = "C03"
 LEAN_MODULES = ["DclabModel.Properties.C03"]
@@ -22,7 +22,9 @@ RULE = ("seeded histories of 5..60 operations on a dict-backed dataset with 1..2
         "+-inf, on absent features), remove keys (pop), create/modify (points, axes, inverted)/"
         "add/remove polygon filters, toggle 'remove invalid events' and 'enable filters', set "
         "'limit events' in {0,1,2,n/2,n,n+3}, edit ds.filter.manual, reset_filter(), "
-        "apply_filter() with and without force. After every apply the four arrays are compared "
+        "apply_filter() with and without force; about a third of the applies happen while a range is "
+        "half-set (the apply raises) and the history continues, often by restoring the settings "
+        "applied last. After every apply the four arrays are compared "
         "with the Lean model and ds.filter.all with (a) a stateless Python evaluation of "
         "ds.config['filtering'] and (b) a fresh dataset given the same settings. distinct = "
         "distinct histories with >= 2 successful applies and a range change/removal or polygon "
@@ -37,16 +39,16 @@ TRUSTED_BASE = [
     "dclab's own points_in_poly for every polygon and hands the table to the model",
     "np.random.choice (seed 47) is recorded while dclab runs, checked for ChoiceOK and handed "
     "to the model",
-    "headline theorem assumes ValidHist: every apply happens with both or neither of a "
-    "feature's min/max set and polygon axes present (otherwise the code raises); a raising "
-    "apply leaves stale state behind — open finding F25, modelled faithfully, witness "
-    "failed_apply_witness",
+    "headline theorem assumes ValidHist: polygon filters in the settings have their axes in "
+    "the dataset (otherwise update raises a KeyError that is not modelled); applies that raise "
+    "because a range is half-set are part of the histories (F25 fixed by fix-F25)",
 ]
 ASSUMPTIONS = ["range bounds are not NaN", "polygon filter ids in the settings are registered "
                "instances whose axes exist in the dataset", "forced feature names are valid "
                "scalar feature names", "the set of features and the number of events of the "
                "dataset do not change during a history"]
-NOT_PROVED = ["the guard ValidHist of update_refines_spec cannot be dropped today (F25)",
+NOT_PROVED = ["KeyError path of update (polygon filter whose axes are missing from the dataset) and "
+              "ValueError for unknown forced feature names: outside the model",
               "pip is a parameter (C15 covers containment); md5 injectivity",
               "hierarchy children (property C04) and the 'hierarchy parent' key"]
 
@@ -107,7 +109,8 @@ def gen_history(rng, thorough):
     filterable = present + ["index"] + ABSENT
     nops = rng.randint(5, 60)
     ops = []
-    keys = {}          # (feat, ismax) -> present?   (generator's view, to steer validity)
+    keys = {}          # (feat, ismax) -> value token (generator's view, to steer validity)
+    applied = {}       # the keys at the last apply that did not raise
     polys = {}         # pid -> True
     active = []
 
@@ -123,11 +126,11 @@ def gen_history(rng, thorough):
                 w = v if rng.random() < 0.12 else gen_bound(rng, thorough)
                 ops.append(("set", FID[f], 0, tok(v)))
                 ops.append(("set", FID[f], 1, tok(w)))
-                keys[(f, 0)] = keys[(f, 1)] = True
+                keys[(f, 0)], keys[(f, 1)] = tok(v), tok(w)
             else:
                 mx = rng.randint(0, 1)
                 ops.append(("set", FID[f], mx, tok(v)))
-                keys[(f, mx)] = True
+                keys[(f, mx)] = tok(v)
         elif r < 0.40:
             cand = sorted({f for (f, _m) in keys})
             if cand and rng.random() < 0.9:
@@ -169,12 +172,13 @@ def gen_history(rng, thorough):
             active = []
         else:
             hs = half_set()
-            if hs and rng.random() < 0.85:
+            if hs and rng.random() < 0.7:
                 for f in hs:           # complete or drop the half-set ranges first
                     if rng.random() < 0.5:
                         mx = 0 if (f, 1) in keys else 1
-                        ops.append(("set", FID[f], mx, tok(gen_bound(rng, thorough))))
-                        keys[(f, mx)] = True
+                        v = tok(gen_bound(rng, thorough))
+                        ops.append(("set", FID[f], mx, v))
+                        keys[(f, mx)] = v
                     else:
                         mx = 0 if (f, 0) in keys else 1
                         ops.append(("pop", FID[f], mx))
@@ -184,8 +188,18 @@ def gen_history(rng, thorough):
             if rng.random() < 0.15:
                 force = sorted({FID[rng.choice(filterable)] for _ in range(rng.randint(1, 2))})
             ops.append(("apply", force))
-            if hs:
-                break               # an apply that raises ends the history (see F25)
+            if not hs:
+                applied = dict(keys)
+            elif rng.random() < 0.6:
+                # the apply raised: go back to the settings applied last (F25 pattern) ...
+                for key in sorted(set(keys) | set(applied)):
+                    if key in applied and keys.get(key) != applied[key]:
+                        ops.append(("set", FID[key[0]], key[1], applied[key]))
+                    elif key not in applied:
+                        ops.append(("pop", FID[key[0]], key[1]))
+                keys = dict(applied)
+                if rng.random() < 0.7:      # ... and apply again
+                    ops.append(("apply", []))
     if not ops or ops[-1][0] != "apply":
         if not half_set():
             ops.append(("apply", []))
@@ -338,7 +352,6 @@ def run_impl(case, want_lines=True):
             lines.append(f"col {FID[feat]} " + " ".join(tok(x) for x in im.column(feat)))
     answers, specfail = [], []
     pip_sent = set()
-    failed_apply = False
     for i, op in enumerate(case["ops"]):
         op = tuple(op)
         if want_lines and op[0] == "polyset":
@@ -359,10 +372,12 @@ def run_impl(case, want_lines=True):
             slots.append(len(lines) - 1)
         if op[0] == "apply":
             if not ans.startswith("ok"):
-                failed_apply = True
+                cfg = im.ds.config["filtering"]
+                half = [f for f in FEATS if (f + " min" in cfg) != (f + " max" in cfg)]
+                if not (ans.startswith("err:value") and half):
+                    specfail.append((i, f"apply_filter raised ({ans.split(' ')[0]}) although every "
+                                        f"range of the current settings has both keys"))
                 continue
-            if failed_apply:
-                continue            # F25: state after a raising apply is checked separately
             try:
                 pre, limit = im.reference()
                 got = np.array(im.ds.filter.all, dtype=bool)
@@ -383,22 +398,21 @@ def run_impl(case, want_lines=True):
 
 
 def compare(case, answers, model_out, slots):
-    """first disagreement between the implementation and the model, or None;
-    also returns whether impl.all differs from the model's *spec* at a successful apply"""
-    failed = False
+    """first disagreement between the implementation and the model (impl mirror, and the model's
+    stateless `specApply`: bits of `all`, or `raise`), or None"""
     for i, op in enumerate(case["ops"]):
         m = model_out[slots[i]].strip()
         m_impl = m.split(" ## ")[0].strip()
         if m_impl != answers[i].strip():
-            return i, f"op {i} {op}: impl '{answers[i][:70]}' model '{m_impl[:70]}'", False
+            return i, f"op {i} {op}: impl '{answers[i][:70]}' model '{m_impl[:70]}'"
         if op[0] == "apply":
-            if not answers[i].startswith("ok"):
-                failed = True
-            elif not failed:
-                spec_bits = m.split(" ## ")[1].strip() if " ## " in m else ""
-                all_bits = answers[i].split(" all=")[1].split(" ")[0] if " all=" in answers[i] else ""
-                if spec_bits != all_bits:
-                    return i, f"op {i}: ds.filter.all {all_bits} ≠ model spec {spec_bits}", True
+            spec_ans = m.split(" ## ")[1].strip() if " ## " in m else ""
+            if answers[i].startswith("ok"):
+                got = answers[i].split(" all=")[1].split(" ")[0] if " all=" in answers[i] else ""
+            else:
+                got = "raise"
+            if spec_ans != got:
+                return i, f"op {i}: apply gives {got}, the model's specification {spec_ans}"
     return None
 
 
@@ -449,6 +463,13 @@ def shrink(case):
     return small
 
 
+#: F25 (fixed by fix-F25): an apply that raises must not leave recomputed box filters behind
+F25_HISTORY = {"n": 5, "data": {"area_um": ["0", "1", "3", "2", "4"], "deform": ["5", "6", "7", "0", "1"]},
+               "ops": [["set", 0, 0, "1"], ["set", 0, 1, "2"], ["apply", []],
+                       ["set", 0, 0, "3"], ["set", 0, 1, "4"], ["set", 3, 0, "0"], ["apply", []],
+                       ["set", 0, 0, "1"], ["set", 0, 1, "2"], ["pop", 3, 0], ["apply", []]]}
+
+
 # ---- recorded histories: replayed first on every run ------------------------------------------
 def builtin_corpus():
     a, d = FID["area_um"], FID["deform"]
@@ -461,7 +482,7 @@ def builtin_corpus():
         ["apply", []], ["polyset", 0, a, d, 2, 1], ["limit", 1], ["apply", []],
         ["reset"], ["apply", []], ["pop", d, 1], ["set", d, 1, "6"], ["manual", 1, 0],
         ["invalid", 1], ["apply", [d]], ["enable", 0], ["apply", []]]}
-    return [f03, mixed]
+    return [f03, F25_HISTORY, mixed]
 
 
 def exhaustive_cases(max_len=4):
@@ -491,33 +512,6 @@ def exhaustive_cases(max_len=4):
                 ops.append(["apply", []])
             out.append({"n": 4, "data": data, "ops": ops})
     return out
-
-
-F25_HISTORY = {"n": 5, "data": {"area_um": ["0", "1", "3", "2", "4"], "deform": ["5", "6", "7", "0", "1"]},
-               "ops": [["set", 0, 0, "1"], ["set", 0, 1, "2"], ["apply", []],
-                       ["set", 0, 0, "3"], ["set", 0, 1, "4"], ["set", 3, 0, "0"], ["apply", []],
-                       ["set", 0, 0, "1"], ["set", 0, 1, "2"], ["pop", 3, 0], ["apply", []]]}
-
-
-def known_f25(ctx):
-    """open finding F25: an apply that raises leaves recomputed box filters behind"""
-    what = ("apply_filter() that raises (only one of min/max set) leaves recomputed box filters "
-            "behind; restoring the previous ranges afterwards gives a stale ds.filter.all")
-    try:
-        im = Impl(F25_HISTORY)
-        outs = [im.do(tuple(op)) for op in F25_HISTORY["ops"]]
-        pre, _l = im.reference()
-        got = np.array(im.ds.filter.all, dtype=bool)
-    except Exception as e:  # noqa
-        ctx.note(f"F25 witness could not be run: {e!r}"[:160])
-        return
-    if outs[6].startswith("err:value") and not np.array_equal(got, pre):
-        if is_open(ctx, "F25"):
-            ctx.known("F25", what)
-        else:
-            ctx.violation("spec", what, F25_HISTORY)
-    else:
-        ctx.note("F25 (stale box filter after a raising apply) no longer reproduces")
 
 
 def run(ctx):
@@ -585,7 +579,6 @@ def run(ctx):
                                     f"first: {d[1]}",
                           {"correspondence": "Drive/C03.lean vs dclab.rtdc_dataset.filter.Filter",
                            "case": c})
-    known_f25(ctx)
 
 
 def replay(ctx, data):
@@ -598,9 +591,4 @@ def replay(ctx, data):
     for o, a in zip(case["ops"], answers):
         print(o, "->", a)
     print("specfail:", specfail)
-    if case == F25_HISTORY:
-        im = Impl(case)
-        for op in case["ops"]:
-            im.do(tuple(op))
-        return not np.array_equal(np.array(im.ds.filter.all, dtype=bool), im.reference()[0])
     return bool(specfail)
